@@ -1183,7 +1183,20 @@ def extract_h2_reader(repo, parents):
                          and any(n is d for d in ast.walk(w)) for w in ast.walk(fn))
             if not inside:
                 reads_outside = True
-    return ["/-- `_receive_events`: `if stream_id is None or not self._events.get(stream_id):` guards `_read_incoming_data` *inside*",
+    # the writer: h2's outgoing buffer is emptied and written under one and the same hold of the write lock
+    fw = _find_func(tree, "_write_outgoing_data", cls="AsyncHTTP2Connection")
+    takes = [n for n in ast.walk(fw) if isinstance(n, ast.Call) and ast.unparse(n.func) == "self._h2_state.data_to_send"]
+    writes = [n for n in ast.walk(fw) if isinstance(n, ast.Call) and ast.unparse(n.func) == "self._network_stream.write"]
+    wlocks = [w for w in ast.walk(fw) if isinstance(w, (ast.AsyncWith, ast.With)) and [ast.unparse(i.context_expr) for i in w.items] == ["self._write_lock"]]
+    wok = len(takes) == 1 and len(writes) == 1 and len(wlocks) == 1 and \
+        any(takes[0] is d for d in ast.walk(wlocks[0])) and any(writes[0] is d for d in ast.walk(wlocks[0]))
+    others = [ast.unparse(n.func) for f2 in ast.walk(tree) if isinstance(f2, (ast.AsyncFunctionDef, ast.FunctionDef)) and f2.name != "_write_outgoing_data"
+              for n in ast.walk(f2) if isinstance(n, ast.Call) and ast.unparse(n.func) in ("self._h2_state.data_to_send", "self._network_stream.write")]
+    writer = ["/-- `_write_outgoing_data`: `self._h2_state.data_to_send()` and the `write` of what it returned are inside one",
+              "`async with self._write_lock:`, and nothing else in `http2.py` takes from h2's buffer or writes to the stream - frames reach the",
+              "wire in the order h2 produced them (the HPACK encoder state depends on it) -/",
+              "def h2BufferWrittenUnderWriteLock : Bool := " + ("true" if wok and not others else "false")]
+    return writer + ["/-- `_receive_events`: `if stream_id is None or not self._events.get(stream_id):` guards `_read_incoming_data` *inside*",
             "`async with self._read_lock:`; the network is not read outside that lock -/",
             "def h2EventsRecheckedUnderReadLock : Bool := " + ("true" if ok and not reads_outside else "false")]
 
